@@ -21,7 +21,7 @@ RULE = (
     "IRs from selgen (bounded-exhaustive over a reduced alphabet + Hypothesis-random up to depth 3 / "
     "width 3); each IR is rendered in its documented spellings ('>' chains vs nested '!', () regrouping, "
     "'$x' vs '* as x', 'f() as r' vs 'f(!#value as r)', 'f(b)=c' vs 'f(b, #value=c)') and whitespace "
-    "variants. evaluations = parse() calls compared. A case (IR) is non-trivial when it has depth >= 2 "
+    "variants, optionally after a rejected (malformed) selector went through the compiler. evaluations = parse() calls compared. A case (IR) is non-trivial when it has depth >= 2 "
     "and uses >= 2 of {alias, tag, value, generic capture, meta-variable}; distinct by IR hash."
 )
 ASSUMPTIONS = [
